@@ -389,10 +389,19 @@ class TimeTriggeredPlanValidator(engines.engine.Engine, mixins.PlanValidatorMixi
                 changes = self._apply_effect(state, se, ai, eff, updates, problem)
                 for f, v in changes.items():
                     if f in assigned or (f in updates and eff.is_assignment()):
-                        if f.type.is_bool_type() and assigned[f] == ai:
+                        same_instance = (
+                            eff.is_assignment() and f in assigned and assigned[f] == ai
+                        )
+                        if same_instance and f.type.is_bool_type():
                             # Handle "delete before add" semantics
                             if v.bool_constant_value():
                                 updates[f] = v
+                        elif (
+                            same_instance
+                            and updates[f].constant_value() == v.constant_value()
+                        ):
+                            # the same value assigned twice by one action is not a conflict
+                            pass
                         else:
                             raise UPConflictingEffectsException("Double effect")
                     else:
